@@ -1285,11 +1285,11 @@ def _candidates_all(f, ref_assigns=(), ref_locals=(), changed=None, ref_params=N
                 if i + 1 < len(b) and isinstance(b[i + 1], ast.If) and not b[i + 1].orelse and len(b[i + 1].body) == 1 and ast.dump(b[i + 1].body[0]) == ast.dump(st.body[0]):
                     yield ('merge_or', bi, i)
             # `with X: ...; t = E` then `return t`  <->  `with X: ...; return E`
-            if isinstance(st, (ast.With, ast.AsyncWith)) and i + 1 < len(b) and isinstance(b[i + 1], ast.Return) and isinstance(b[i + 1].value, ast.Name) \
+            if isinstance(st, (ast.With, ast.AsyncWith)) and st.body and i + 1 < len(b) and isinstance(b[i + 1], ast.Return) and isinstance(b[i + 1].value, ast.Name) \
                     and isinstance(st.body[-1], ast.Assign) and len(st.body[-1].targets) == 1 and isinstance(st.body[-1].targets[0], ast.Name) \
                     and st.body[-1].targets[0].id == b[i + 1].value.id:
                 yield ('return_into_with', bi, i)
-            if isinstance(st, (ast.With, ast.AsyncWith)) and isinstance(st.body[-1], ast.Return) and st.body[-1].value is not None and i == len(b) - 1:
+            if isinstance(st, (ast.With, ast.AsyncWith)) and st.body and isinstance(st.body[-1], ast.Return) and st.body[-1].value is not None and i == len(b) - 1:
                 yield ('return_out_of_with', bi, i)
             # R10 default then override  <->  if/else
             if isinstance(st, ast.Assign) and len(st.targets) == 1 and isinstance(st.targets[0], ast.Name) and _pure(st.value) and i + 1 < len(b):
@@ -1525,6 +1525,29 @@ def _comp_body(loop, t):
     return res
 
 
+def _with_chain(f, node):
+    """the `with` statements of f that enclose node, outermost first (the lock regions it executes in)"""
+    out = []
+
+    def rec(cur, chain):
+        for ch in _children_in_order(cur):
+            if ch is node:
+                out.extend(chain)
+                return True
+            if isinstance(ch, SCOPES):
+                continue
+            if rec(ch, chain + [ch] if isinstance(ch, (ast.With, ast.AsyncWith)) else chain):
+                return True
+        return False
+    rec(f, [])
+    return [id(x) for x in out]
+
+
+def _mentions_shared(e):
+    """reads state that other threads may change: an attribute chain (self.x, conn.y ...)"""
+    return any(isinstance(x, ast.Attribute) for x in ast.walk(e))
+
+
 def _reevaluable(f, e):
     """evaluating e again later in f gives the same value and has no effect: constants, parameters / locals that are bound once, and len() of such"""
     if isinstance(e, ast.Constant):
@@ -1636,6 +1659,9 @@ def _apply(f, cand, ref_assigns=()):
         if not loads:
             return False
         if i >= len(loads):
+            return False
+        # a read of shared state keeps its place relative to the lock regions: the value seen under a lock is not the value seen after it
+        if _mentions_shared(d.value) and _with_chain(f, d) != _with_chain(f, loads[i]):
             return False
         _replace_node(f, loads[i], _copy.deepcopy(d.value))
         return True
@@ -1918,7 +1944,15 @@ def _apply(f, cand, ref_assigns=()):
             if j <= pos and any(isinstance(x, ast.Name) and x.id == t and isinstance(x.ctx, ast.Load) for x in ast.walk(s_)):
                 return False
         val = st.value
+        if _mentions_shared(val):
+            wc = _with_chain(f, st)
+            if any(_with_chain(f, x) != wc for x in own if isinstance(x, ast.Name) and x.id == t and isinstance(x.ctx, ast.Load)):
+                return False
+        if not any(isinstance(x, ast.Name) and x.id == t and isinstance(x.ctx, ast.Load) for x in own):
+            return False
         del b[i]
+        if not b:
+            b.append(ast.Pass())
 
         class A(ast.NodeTransformer):
             def visit_Name(s, n):
